@@ -7,7 +7,8 @@
    learner [lrn] (abstract), configuration [c] (kind, ntasks, ncores, retries,
    raise_if_retries_exceeded, log) after the ENVIRONMENT events [evs]: goal
    evaluations, the ordered list of completed futures with Ok/Err of every
-   wait, cancellation, the futures that still deliver at shutdown.  Every
+   wait, cancellation (in a wait, or in the middle of a submission batch), the
+   futures that still deliver at shutdown.  Every
    theorem is "forall evs": all completion orders, failure assignments and
    cancellation points.  [tr s] is the trace of observable actions, NEWEST
    FIRST: in [tr s = later ++ e :: earlier], [earlier] happened before [e]. *)
@@ -59,7 +60,8 @@ Section C05.
   Proof. exact (@keeps_full P V L lrn c). Qed.
 
   (* When the run has stopped: the goal was evaluated to True, or cancellation
-     happened, or the stop is the error stop of a point over its retry limit;
+     happened (inside a wait, [Cancel], or inside _get_futures after j
+     submissions of a batch, [SubmitCancel j]), or the stop is the error stop of a point over its retry limit;
      learner.remove_unfinished() was called, exactly once, and after it only
      cancel() calls, consumed results and tells happened (no ask, no
      submission); every evaluation ever submitted was consumed or had cancel()
@@ -68,7 +70,7 @@ Section C05.
     let s := reach lrn c l0 evs in
     ph s = Stopped w cl -> w <> NoWorkers ->
     (w = GoalMet -> In (Goal true) evs) /\
-    (w = Cancelled -> In Cancel evs) /\
+    (w = Cancelled -> In Cancel evs \/ exists j, In (SubmitCancel j) evs) /\
     (forall p, w = Failed p -> c_raise c = true /\ c_retries c < nerr p (tr s)) /\
     (exists t1 t2, tr s = t1 ++ TRemove :: t2 /\
        (forall e, In e t1 -> (exists f, e = TCancel f) \/ (exists f q o, e = TDone f q o) \/ (exists q x y, e = TTell q x y)) /\
